@@ -19,6 +19,23 @@ type c08EscapeCase struct {
 	Raw     string `json:"raw"`     // document with literal `$` in values, loaded with interpolation off
 	Doubled string `json:"doubled"` // every `$` of every value doubled, loaded with interpolation on
 	Dollars int    `json:"dollars"`
+	// Layout: "" one file | include (the document is an included file) | override (it is the second file) |
+	// extends-file (the first service's body lives in another file and is inherited through extends)
+	Layout  string `json:"layout,omitempty"`
+	RawBase string `json:"raw_base,omitempty"` // extends-file: the base file, raw and doubled
+	DblBase string `json:"doubled_base,omitempty"`
+}
+
+func (cs c08EscapeCase) files(doc, base string) loadCase {
+	switch cs.Layout {
+	case "include":
+		return loadCase{Files: []memFile{{Name: "compose.yaml", Content: "include:\n  - inc/compose.yaml\nservices:\n  front-of-include:\n    image: busybox\n"}, {Name: "inc/compose.yaml", Content: doc}}, Main: []string{"compose.yaml"}}
+	case "override":
+		return loadCase{Files: []memFile{{Name: "compose.yaml", Content: "services:\n  front-of-override:\n    image: busybox\n"}, {Name: "override.yaml", Content: doc}}, Main: []string{"compose.yaml", "override.yaml"}}
+	case "extends-file":
+		return loadCase{Files: []memFile{{Name: "compose.yaml", Content: doc}, {Name: "base/base.yaml", Content: base}}, Main: []string{"compose.yaml"}}
+	}
+	return loadCase{Files: []memFile{{Name: "compose.yaml", Content: doc}}, Main: []string{"compose.yaml"}}
 }
 
 var c08DollarTexts = []string{"$FOO", "${BAR}", "a$b", "$", "cost 5$", "${X:-y}", "$$", "${", "$1", "${A:?err}", "x${Y}z$W", "${NESTED:-${INNER}}", "}$ {"}
@@ -72,12 +89,42 @@ func genC08Escape(t *rapid.T) c08EscapeCase {
 	if rapid.Bool().Draw(t, "top") {
 		doc["x-top"] = map[string]any{"text": dollar(), "n": 1}
 	}
-	return c08EscapeCase{Raw: emitYAML(doc, nil), Doubled: emitYAML(doubleDollars(doc).(map[string]any), nil), Dollars: n}
+	cs := c08EscapeCase{Dollars: n, Layout: rapid.SampledFrom([]string{"", "", "include", "override", "extends-file"}).Draw(t, "layout")}
+	if cs.Layout == "extends-file" {
+		// the body of the first service moves to another file; the service inherits it
+		first := sortedKeys(svcs)[0]
+		body := svcs[first].(map[string]any)
+		delete(body, "depends_on")
+		delete(body, "links")
+		base := map[string]any{"services": map[string]any{"tmpl": body}}
+		svcs[first] = map[string]any{"extends": map[string]any{"file": "base/base.yaml", "service": "tmpl"}}
+		cs.RawBase, cs.DblBase = emitYAML(base, nil), emitYAML(doubleDollars(base).(map[string]any), nil)
+	}
+	cs.Raw, cs.Doubled = emitYAML(doc, nil), emitYAML(doubleDollars(doc).(map[string]any), nil)
+	return cs
 }
 
 func c08EscapeCheck(c *Ctx, cs c08EscapeCase) *Failure {
 	env := map[string]string{"FOO": "foo-value", "BAR": "bar-value", "X": "x", "Y": "y", "W": "w", "SECRET_token": "t"}
-	off := loadCase{Files: []memFile{{Name: "compose.yaml", Content: cs.Raw}}, Main: []string{"compose.yaml"}, Env: env, Opts: loadOpts{SkipInterpolation: true}}.loadMem()
+	load := func(lc loadCase) loadResult {
+		if cs.Layout == "" || cs.Layout == "override" {
+			return lc.loadMem()
+		}
+		root, cleanup, err := lc.materialise()
+		if err != nil {
+			return loadResult{Err: err}
+		}
+		defer cleanup()
+		r := lc.loadAt(root, false, 0)
+		r.Project = rebaseProject(r.Project, root)
+		return r
+	}
+	if cs.Layout != "" {
+		c.Label("escape:layout-" + cs.Layout)
+	}
+	lcOff := cs.files(cs.Raw, cs.RawBase)
+	lcOff.Env, lcOff.Opts = env, loadOpts{SkipInterpolation: true}
+	off := load(lcOff)
 	if off.Panic != nil {
 		return off.Panic
 	}
@@ -88,7 +135,9 @@ func c08EscapeCheck(c *Ctx, cs c08EscapeCase) *Failure {
 	if cs.Dollars > 0 {
 		c.NonTrivial(cs.Raw, map[string]any{"raw": cs.Raw, "doubled": cs.Doubled})
 	}
-	on := loadCase{Files: []memFile{{Name: "compose.yaml", Content: cs.Doubled}}, Main: []string{"compose.yaml"}, Env: env}.loadMem()
+	lcOn := cs.files(cs.Doubled, cs.DblBase)
+	lcOn.Env = env
+	on := load(lcOn)
 	if on.Panic != nil {
 		return on.Panic
 	}
